@@ -692,15 +692,18 @@ func (r *pRun) runSchedule(sched []string) error {
 			break
 		}
 		p, _ := strconv.Atoi(m[2])
+		// the step is part of the history before it runs: a predicate that
+		// fails during it must name it
+		r.hist = append(r.hist, fmt.Sprintf("%s(%d)", m[1], p))
 		ok, err := r.stepWriter(p)
 		if err != nil {
 			return err
 		}
 		if !ok {
+			r.hist = r.hist[:len(r.hist)-1]
 			r.res.Count("steps_not_enabled", 1)
 			continue
 		}
-		r.hist = append(r.hist, fmt.Sprintf("%s(%d)", m[1], p))
 		r.res.Count("steps", 1)
 		if r.verdicts > 0 || r.tainted {
 			break
@@ -713,13 +716,15 @@ func (r *pRun) runSchedule(sched []string) error {
 		for p := 1; p <= r.nw; p++ {
 			w := r.writers[p]
 			if w.active || w.opi < len(r.in.Prog[strconv.Itoa(p)]) {
+				r.hist = append(r.hist, fmt.Sprintf("drain(%d)", p))
 				ok, err := r.stepWriter(p)
 				if err != nil {
 					return err
 				}
 				if ok {
 					progress = true
-					r.hist = append(r.hist, fmt.Sprintf("drain(%d)", p))
+				} else {
+					r.hist = r.hist[:len(r.hist)-1]
 				}
 			}
 		}
@@ -784,7 +789,7 @@ func TestPersistSchedules(t *testing.T) {
 	}
 	for si, sched := range in.Schedules {
 		var err error
-		for attempt := 0; attempt < 3; attempt++ {
+		for attempt := 0; attempt < 5; attempt++ {
 			if err = r.runSchedule(sched); err != errTainted {
 				break
 			}
